@@ -641,6 +641,286 @@ class NodesFromPointsList(Contract):
         return out
 
 
+# ------------------------------------------------------------------ nodes_from_segmentation
+NFS = "funtracks.candidate_graph.utils.nodes_from_segmentation"
+Pix = z3.DeclareSort("PixC")
+t_ = z3.Int("t!c")
+px_ = z3.Const("p!c", Pix)
+RPc = z3.Function("regionprop", z3.StringSort(), Int, Int, Val, Val)  # (attribute, frame, label, spacing) -> measurement
+
+
+class SegVideo(ModelObj):
+    """label video: Seg(t, p); the regions of frame t are its non-zero labels, each once (nreg, lab, labpos)"""
+
+    type_names = ("ndarray",)
+
+    def __init__(self, ctx):
+        self.ctx = ctx
+        self.Seg = ctx.fresh_fun("Seg", Int, Pix, Int)
+        self.nfr = ctx.fresh("n_frames", Int)
+        self.ndim = ctx.fresh("ndim", Int)
+        self.nreg = ctx.fresh_fun("n_regions", Int, Int)
+        self.lab = ctx.fresh_fun("region_label", Int, Int, Int)
+        self.labpos = ctx.fresh_fun("region_pos", Int, Int, Int)
+        self.labpix = ctx.fresh_fun("region_pixel", Int, Int, Pix)
+        Seg, nreg, lab, labpos = self.Seg, self.nreg, self.lab, self.labpos
+        ctx.assume(AND(self.nfr >= 0, self.ndim >= 2))
+        ctx.assume(forall([t_], nreg(t_) >= 0), "regions")
+        ctx.assume(forall([t_, j_], IMP(AND(j_ >= 0, j_ < nreg(t_)), AND(lab(t_, j_) != 0, Seg(t_, self.labpix(t_, j_)) == lab(t_, j_), labpos(t_, lab(t_, j_)) == j_))), "regions")
+        ctx.assume(forall([t_, px_], IMP(Seg(t_, px_) != 0, AND(labpos(t_, Seg(t_, px_)) >= 0, labpos(t_, Seg(t_, px_)) < nreg(t_), lab(t_, labpos(t_, Seg(t_, px_))) == Seg(t_, px_)))), "regions")
+
+    def is_label(self, t, n):
+        return AND(self.labpos(t, n) >= 0, self.labpos(t, n) < self.nreg(t), self.lab(t, self.labpos(t, n)) == n)
+
+    def attr_ndim(self, I):
+        return Sym(self.ndim)
+
+    def m_len(self, I):
+        return Sym(self.nfr)
+
+    def m_getitem(self, I, t):
+        return SegFrame(self, to_z3(t, Int))
+
+
+class SegFrame(ModelObj):
+    type_names = ("ndarray",)
+
+    def __init__(self, V, t):
+        self.V, self.t = V, t
+
+
+class RegionC(ModelObj):
+    def __init__(self, V, t, lab, sp):
+        self.V, self.t, self.lab_, self.sp = V, t, lab, sp
+
+    def attr_label(self, I):
+        return Sym(self.lab_)
+
+    def attr_area(self, I):
+        return Sym(RPc(z3.StringVal("area"), self.t, self.lab_, self.sp))
+
+    def attr_centroid(self, I):
+        return Sym(RPc(z3.StringVal("centroid"), self.t, self.lab_, self.sp))
+
+
+def regionprops_ext(I, args, kw):
+    """skimage.measure.regionprops(frame, spacing=...): one region per non-zero label of the frame, each once (assumed)"""
+    fr = args[0]
+    if not isinstance(fr, SegFrame):
+        raise Unsupported("regionprops argument")
+    sp = kw.get("spacing")
+    ctx = I.ctx
+    if isinstance(sp, Sym) and sp.sort() == Val:
+        spv = sp.e
+    else:
+        spv = ctx.ghost.setdefault("unit_spacing", ctx.fresh("unit_spacing", Val))  # tuple([1] * ndim [1:])
+    V, t = fr.V, fr.t
+    out = SymList(V.nreg(t), lambda j: RegionC(V, t, V.lab(t, j), spv))
+    out.frame_t, out.sp = t, spv
+    ctx.ghost.setdefault("spacings_seen", []).append(spv)
+    return out
+
+
+class SegGraph(ModelObj):
+    """nx.DiGraph() filled by add_node(n, time=, area=, seg_id=, pos=)"""
+
+    type_names = ("DiGraph",)
+
+    def __init__(self, ctx):
+        self.ctx = ctx
+        self.N = ctx.fresh_fun("N", Int, Bool)
+        self.fr = ctx.fresh_fun("fr", Int, Int)
+        self.area = ctx.fresh_fun("area", Int, Val)
+        self.pos = ctx.fresh_fun("pos", Int, Val)
+        self.segid = ctx.fresh_fun("seg_id", Int, Int)
+        ctx.assume(forall([a_], z3.Not(self.N(a_))))
+        self.edges_added = 0
+
+    def havoc(self):
+        ctx = self.ctx
+        self.N, self.fr = ctx.fresh_fun("N", Int, Bool), ctx.fresh_fun("fr", Int, Int)
+        self.area, self.pos, self.segid = ctx.fresh_fun("area", Int, Val), ctx.fresh_fun("pos", Int, Val), ctx.fresh_fun("seg_id", Int, Int)
+
+    def attr_nodes(self, I):
+        return SegNodes(self)
+
+    def do_add_node(self, I, n, **attrs):
+        if set(attrs) != {"time", "area", "seg_id", "pos"}:
+            raise Unsupported(f"add_node attributes {sorted(attrs)}")
+        ne = to_z3(n, Int)
+        N0, f0, a0, p0, s0 = self.N, self.fr, self.area, self.pos, self.segid
+        self.havoc()
+        te, ae, pe, se = to_z3(attrs["time"], Int), to_z3(attrs["area"], Val), to_z3(attrs["pos"], Val), to_z3(attrs["seg_id"], Int)
+        self.ctx.assume(forall([a_], AND(self.N(a_) == OR(N0(a_), a_ == ne), self.fr(a_) == z3.If(a_ == ne, te, f0(a_)), self.area(a_) == z3.If(a_ == ne, ae, a0(a_)),
+                                         self.pos(a_) == z3.If(a_ == ne, pe, p0(a_)), self.segid(a_) == z3.If(a_ == ne, se, s0(a_)))))
+
+    def do_add_edge(self, I, *a, **k):
+        self.edges_added += 1
+
+
+class SegNodes(ModelObj):
+    def __init__(self, g):
+        self.g = g
+
+    def m_contains(self, I, n):
+        return Sym(self.g.N(to_z3(n, Int)))
+
+
+def growlist_extend(gl, L):
+    """d[t].extend(L) for a symbolic list L of distinct nodes"""
+    d, f, ctx = gl.d, gl.f, gl.d.ctx
+    if not isinstance(L, SymList):
+        raise Unsupported("extend argument")
+    ln0, el0, idx0 = d.ln, d.el, d.idx
+    d.ln, d.el, d.idx = ctx.fresh_fun("gd_len", Int, Int), ctx.fresh_fun("gd_el", Int, Int, Int), ctx.fresh_fun("gd_idx", Int, Int)
+    inL = lambda n, j: AND(j >= 0, j < L.n, to_z3(L.get(j), Int) == n)
+    Lpos = ctx.fresh_fun("ext_pos", Int, Int)
+    ctx.assume(forall([j_], IMP(AND(j_ >= 0, j_ < L.n), Lpos(to_z3(L.get(j_), Int)) == j_)), "extend.distinct")  # the extended list has no repetition (its own invariant)
+    ctx.assume(forall([f_], d.ln(f_) == z3.If(f_ == f, ln0(f_) + L.n, ln0(f_))))
+    ctx.assume(forall([f_, j_], d.el(f_, j_) == z3.If(AND(f_ == f, j_ >= ln0(f), j_ < ln0(f) + L.n), to_z3(L.get(j_ - ln0(f)), Int), el0(f_, j_))))
+    ctx.assume(forall([a_], d.idx(a_) == z3.If(inL(a_, Lpos(a_)), ln0(f) + Lpos(a_), idx0(a_))))
+
+
+GrowList.do_extend = lambda self, I, L: growlist_extend(self, L)
+
+
+def seg_clauses(V, g, d, T, upto=None):
+    """nodes = labels of frames < T (plus, inside frame T, the first `upto` regions)"""
+    done = lambda n: OR(AND(g.fr(n) >= 0, g.fr(n) < T), AND(upto is not None, g.fr(n) == T, V.labpos(T, n) < (upto if upto is not None else 0))) if upto is not None else AND(g.fr(n) >= 0, g.fr(n) < T)
+    sp = g.ctx.ghost.get("spacing_used")
+    out = [
+        ("nodes-are-the-labels-of-the-processed-frames", forall([a_], g.N(a_) == AND(V.is_label(g.fr(a_), a_), done(a_)))),
+        ("no-edges-added", z3.BoolVal(g.edges_added == 0)),
+    ]
+    if sp is not None:
+        out.append(("node-carries-seg-id-area-and-centroid-of-its-own-region",
+                    forall([a_], IMP(g.N(a_), AND(g.segid(a_) == a_, g.area(a_) == RPc(z3.StringVal("area"), g.fr(a_), a_, sp), g.pos(a_) == RPc(z3.StringVal("centroid"), g.fr(a_), a_, sp))))))
+    return out
+
+
+class SegFramesLoop(LoopSpec):
+    """for t in range(len(segmentation))"""
+
+    props = ("C18",)
+
+    def __init__(self, V):
+        self.V = V
+
+    def enter(self, I, fr, it):
+        if not isinstance(fr.env["node_frame_dict"], GrowDict):
+            fr.env["node_frame_dict"] = GrowDict.empty(I.ctx)
+
+    def havoc(self, I, fr, it, i, assigned):
+        for nm in ("t", "segs", "nodes_in_frame", "props", "regionprop", "node_id", "attrs", "centroid"):
+            fr.env.pop(nm, None)
+        fr.env["node_frame_dict"].fresh()
+        fr.env["cand_graph"].havoc()
+
+    def inv(self, I, fr, it, T):
+        V, g, d = self.V, fr.env["cand_graph"], fr.env["node_frame_dict"]
+        return seg_clauses(V, g, d, T) + frame_dict_clauses(V, g, d, T)
+
+
+def frame_dict_clauses(V, g, d, T):
+    return [
+        ("keys-are-the-processed-frames-with-a-non-empty-list", forall([f_], AND(d.ln(f_) >= 0, d.has(f_) == (d.ln(f_) > 0), IMP(d.has(f_), AND(f_ >= 0, f_ < T))))),
+        ("frame-list = the-frame's-labels-in-region-order", forall([f_], IMP(AND(f_ >= 0, f_ < T), AND(d.ln(f_) == V.nreg(f_), forall([j_], IMP(AND(j_ >= 0, j_ < V.nreg(f_)), d.el(f_, j_) == V.lab(f_, j_))))))),
+    ]
+
+
+class SegRegionsLoop(LoopSpec):
+    """for regionprop in props"""
+
+    props = ("C18",)
+
+    def __init__(self, V):
+        self.V = V
+
+    def enter(self, I, fr, it):
+        self.t = it.frame_t
+        self.d_snapshot = (fr.env["node_frame_dict"].has, fr.env["node_frame_dict"].ln, fr.env["node_frame_dict"].el)
+
+    def havoc(self, I, fr, it, i, assigned):
+        for nm in ("regionprop", "node_id", "attrs", "centroid"):
+            fr.env.pop(nm, None)
+        fr.env["cand_graph"].havoc()
+        fr.env["nodes_in_frame"] = SymList.fresh(I.ctx, "nodes_in_frame", Int)
+
+    def inv(self, I, fr, it, r):
+        V, g, d, t = self.V, fr.env["cand_graph"], fr.env["node_frame_dict"], self.t
+        L = fr.env["nodes_in_frame"]
+        if isinstance(L, list):
+            L = I.to_symseq(L) if L else SymList(z3.IntVal(0), lambda i: Sym(z3.IntVal(0)), elem_sort=Int)
+        same_d = d.has is self.d_snapshot[0] and d.ln is self.d_snapshot[1] and d.el is self.d_snapshot[2]
+        return seg_clauses(V, g, d, t, upto=r) + [
+            ("nodes_in_frame = the-first-r-labels", AND(L.n == r, forall([j_], IMP(AND(j_ >= 0, j_ < r), to_z3(L.get(j_), Int) == V.lab(t, j_))))),
+            ("frame-dictionary-untouched-inside-a-frame", z3.BoolVal(same_d))]
+
+
+class NodesFromSegmentation(Contract):
+    qualname = NFS
+    props = ("C18",)
+
+    def run(self, I, cfg):
+        ctx = I.ctx
+        V = SegVideo(ctx)
+        # documented precondition: labels are unique across time
+        ctx.assume(forall([t_, f_, a_], IMP(AND(V.is_label(t_, a_), V.is_label(f_, a_), t_ >= 0, f_ >= 0), t_ == f_)), "pre.labels-unique-across-time")
+        made = []
+
+        def digraph(I_, a, k):
+            g = SegGraph(ctx)
+            made.append(g)
+            return g
+        I.ext["networkx.DiGraph"] = digraph
+        I.ext["skimage.measure.regionprops"] = regionprops_ext
+        I.ext["skimage.measure._regionprops.regionprops"] = regionprops_ext
+        I.ext["tqdm.tqdm"] = lambda I_, a, k: a[0]
+        ctx.loopspecs[(NFS, 0)] = SegFramesLoop(V)
+        ctx.loopspecs[(NFS, 1)] = SegRegionsLoop(V)
+        if cfg.get("scale"):
+            sp = ctx.fresh("spacing", Val)
+            ctx.ghost["spacing_used"] = sp
+            out = call_real(I, NFS, [V], {"scale": ScaleC(sp, V.ndim)})
+        else:
+            ctx.ghost["unit_spacing"] = ctx.ghost["spacing_used"] = ctx.fresh("unit_spacing", Val)  # tuple(([1] * ndim)[1:])
+            out = call_real(I, NFS, [V], {})
+        q = "nodes_from_segmentation"
+        if out[0] != "return":
+            ctx.oblige(f"C18/{q}/no-exception", False, props=self.props, note=str(out[1]))
+            return out
+        res = out[1]
+        ok = isinstance(res, tuple) and len(res) == 2 and isinstance(res[0], SegGraph) and isinstance(res[1], GrowDict) and len(made) == 1
+        ctx.oblige(f"C18/{q}/ensures:returns-(graph,frame-dictionary)", z3.BoolVal(ok), props=self.props)
+        seen = ctx.ghost.get("spacings_seen", [])
+        ctx.oblige(f"C18/{q}/ensures:regions-measured-with-the-given-spacing", z3.BoolVal(all(x.eq(ctx.ghost["spacing_used"]) for x in seen)), props=self.props)
+        if ok:
+            g, d = res
+            for lbl, f in seg_clauses(V, g, d, V.nfr) + frame_dict_clauses(V, g, d, V.nfr):
+                ctx.oblige(f"C18/{q}/ensures:{lbl}", f, props=self.props)
+            # what add_cand_edges relies on (the three clauses of its node_frame_dict precondition)
+            W = type("W", (), {"N": g.N, "fr": g.fr, "node_pos": staticmethod(lambda a: a)})
+            ctx.oblige(f"C18/{q}/ensures:every-node-is-listed-once-under-its-frame",
+                       forall([a_], IMP(g.N(a_), AND(V.labpos(g.fr(a_), a_) < d.ln(g.fr(a_)), d.el(g.fr(a_), V.labpos(g.fr(a_), a_)) == a_))), props=self.props)
+        return out
+
+
+class ScaleC(ModelObj):
+    type_names = ("list",)
+
+    def __init__(self, sp, ndim):
+        self.sp, self.ndim = sp, ndim
+
+    def m_len(self, I):
+        return Sym(self.ndim)
+
+    def m_getitem(self, I, idx):
+        if isinstance(idx, slice) and idx.start == 1 and idx.stop is None:
+            return Sym(self.sp)
+        raise Unsupported("scale index")
+
+
 def units():
     from pyvc.verify import Unit
-    return [Unit(AddCandEdges(), {}), Unit(ComputeNodeFrameDict(), {}), Unit(NodesFromPointsList(), {})]
+    return [Unit(AddCandEdges(), {}), Unit(ComputeNodeFrameDict(), {}), Unit(NodesFromPointsList(), {}),
+            Unit(NodesFromSegmentation(), {}), Unit(NodesFromSegmentation(), {"scale": True})]
